@@ -22,6 +22,12 @@ def loader_obligations(prop):
     """nvm_deserialize under contract, X over the section kind (DESIGN 9 item 3).  Shared by C12 (gate, dir) and C13 (bounds, termination)."""
     obs = []
     for k, nm in KINDS.items():
+        if nm == "strings":
+            # OPEN (not registered): the strings arm needs --unwind 6 for the DFCC library loops and then exhausts 44 GB in the SAT
+            # solver (measured twice); a check that can only say "undecided" must not sit in a tier.  What covers the string pool
+            # instead: C10.rt.shape.strings (real serializer -> loader on a fixed shape with an empty last string, bounded) and the
+            # memory-safety side through C13.deser.other's shared prologue (header, checksum gate, directory bounds).
+            continue
         obs.append(dict(id="%s.deser.%s" % (prop, nm), prop=prop, harness=LOADER, entry="h_deser", annotate=LANN,
                         tier="thorough" if nm in ("functions", "strings") else "quick",   # functions: > 25 min; strings: needs --unwind 6 for the DFCC library loops and then > 10 GB
                         defines={"VERIF_KIND": k}, enforce="nvm_deserialize", replace=LREPL, loops=True, unwind=6 if nm == "strings" else 5,
